@@ -30,6 +30,8 @@ TAILS = [
     ('usermac-ws-body2', '\\newcommand{\\yl}[1]{#1,\n        yours   truly}\n', '\\yl{B}'),
     ('usermac-verb-body', '\\newcommand{\\yl}{\\verb|long verbatim text in body|}\n', '\\yl'),
     ('usermac-verbatim-body', '\\newcommand{\\yl}{\\begin{verbatim}long verbatim\ntext\\end{verbatim}}\n', '\\yl'),
+    ('usermac-special-body', '\\newcommand{\\yl}[1]{#1\\]\\)}\n', '\\yl a'),
+    ('usermac-special-body2', '\\def\\yl{\\(\\[}\n', '\\yl'),
     ('usermac-default', '\\newcommand{\\yl}[2][a long default text]{#1 #2}\n', '\\yl{x}'),
     ('usermac-default-only', '\\newcommand{\\yl}[1][a long default text   here]{#1}\n', '\\yl'),
     ('def-long-body', '\\def\\yl#1{long body #1 of the def macro}\n', '\\yl x'),
